@@ -57,12 +57,15 @@ func biasFor(prop string) map[string]int {
 		b["CreateLease"] = 16
 	case "C03", "C05":
 		b["sweep"] = 30
+		b["busy"] = 35
+		b["spread"] = 40
 		b["CloseLease"] = 10
 		b["CloseBid"] = 9
 		b["CloseDeployment"] = 8
 	case "C06":
 		b["dseq.prefix-family"] = 70
 		b["clb.lost"] = 15
+		b["cl.withdrawn"] = 10
 		b["busy"] = 50
 		b["CreateLease"] = 16
 		b["WithdrawLease"] = 10
